@@ -570,8 +570,8 @@ def float_step_ok(v, route='model'):
 
 def layer_counts(rng, q):
     base = [1, 1, 2, 2, 3, 5, 10, 30, 100, 200]
-    extra = [rng.randint(1, 200) for _ in range(18 if q else 600)]
-    small = [rng.randint(1, 12) for _ in range(12 if q else 300)]
+    extra = [rng.randint(1, 200) for _ in range(18 if q else 450)]
+    small = [rng.randint(1, 12) for _ in range(12 if q else 250)]
     return base + extra + small
 
 
@@ -722,7 +722,8 @@ def run_canaries(events, allbad):
     if routes:
         a = dict(routes[len(routes) // 2]); a['u'] = dec(1.0); a['id'] = 'canary-unit'; can.append(a)
         want.append('canary-unit')
-        g = dict(routes[len(routes) // 2]); g['id'] = 'canary-route-good'; can.append(g)
+        if routes[len(routes) // 2]['id'] not in allbad:
+            g = dict(routes[len(routes) // 2]); g['id'] = 'canary-route-good'; can.append(g)
     elif not allbad:
         raise Machinery('no second-route event available for the canaries')
     # chemistry: two layers of one declared gas swapped; mu of one layer changed; a square table transposed
@@ -731,7 +732,8 @@ def run_canaries(events, allbad):
         a = dict(chems[0]); a['mix'] = [list(r) for r in a['mix']]
         r = a['mix'][a['col'][0] - 1]; r[0], r[1] = r[1], r[0]; a['id'] = 'canary-chem-shift'; can.append(a)
         b = dict(chems[-1]); b['mu'] = [list(x) for x in b['mu']]; b['mu'][0][0] += 3000; b['id'] = 'canary-chem-mu'; can.append(b)
-        g = dict(chems[0]); g['id'] = 'canary-chem-good'; can.append(g)
+        if chems[0]['id'] not in allbad:
+            g = dict(chems[0]); g['id'] = 'canary-chem-good'; can.append(g)
         want += ['canary-chem-shift', 'canary-chem-mu']
         sq = [e for e in chems if len(e['col']) == e['n']]
         if sq:
